@@ -105,6 +105,20 @@ var specs = map[string]Spec{
 		QuickFloors: map[string]int64{"src_acks_checked": 1000},
 		MaxSamples:  2,
 	},
+	"C04": {
+		Engine: "routesim", Run: "^TestFault$", Race: true,
+		QuickShards: 16, ThoroughShards: 16, QuickWatchdog: 10 * time.Minute, ThoroughWatchdog: 90 * time.Minute,
+		MaxProcs: []int{16, 4, 2, 1},
+		Level:     "fault_enumeration",
+		LevelText: "For each base scenario the run is repeated with one stream broken right after each of its boundary events (every shard, every event kind, every position; both fault sides: the initiating cluster's connection dies / the proxy's reverse stream to the source fails), with reconnect delays 0 / 0.5 / 3 s, and in the thorough tier with a second break during recovery; sources resume from the last acknowledgement they received. The C01 oracle runs across incarnations: an acknowledgement may never pass a task no target incarnation confirmed.",
+		LevelNote: "Fault positions are logical (after the k-th event of a kind on a stream) and enumerated; the thread interleaving around each position is sampled. Fake peers as in C01. Breaks of intra-proxy streams between instances are not modelled.",
+		Technique: "runtime monitor + fault injection: enumerated stream-break positions on the real handlers in virtual time, online ack-implies-confirmed oracle across stream incarnations",
+		DesignRef: "DESIGN.md §4 C04",
+		Rule:      "cases = base scenarios x (shard, event kind, position, fault side, reconnect delay) [+ sampled double faults in thorough]; non-trivial = the planned fault actually fired; distinct = distinct interleaving signatures",
+		Assumptions: routeAssumptions,
+		QuickFloors: map[string]int64{"faults_fired": 300, "src_acks_checked": 1000},
+		MaxSamples:  1,
+	},
 	"C05": {
 		Engine: "ringmodel", Run: "^TestRing$", Race: false,
 		QuickShards: 16, ThoroughShards: 16, QuickWatchdog: 5 * time.Minute, ThoroughWatchdog: 40 * time.Minute,
